@@ -164,7 +164,7 @@ pub fn run_follow(p: &Prepared, lines: &[String], clear_at: Option<usize>) -> (S
     });
     set_follow_retry_hook(None);
     let _ = std::fs::remove_file(path);
-    let text = String::from_utf8_lossy(&out).replace("\x1B[2J\x1B[1;1H", "");
+    let text = crate::util::strip_control(&String::from_utf8_lossy(&out));
     let mut printed: Vec<String> = text.split('\n').map(|s| s.to_owned()).collect();
     if printed.last().map(|l| l.is_empty()).unwrap_or(false) { printed.pop(); }
     (status, printed)
